@@ -3,6 +3,7 @@
    json.load / load_from_file are returned equal and in order, one item per object, for every compression
    setting; newlines, quotes, non-ASCII characters in strings do not break line framing, and files larger
    than the read chunk are reassembled.
+   Also (second group of theorems): lines=False on a file that holds ONE document.
    What is proved: the rxsci logic (per-item newline, stage order, file append / 64 KiB read = a re-chunking,
    also over a raw stream that returns short reads,
    line unframing - reusing the C15 theorem -, skip, len(line) > 0 filter, None filter) composes to the
@@ -115,6 +116,67 @@ Theorem C19_length_abstraction : forall (C : Type) (is_nl : C -> bool) (chunks :
 Proof. exact len_run_timed_spec. Qed.
 Print Assumptions C19_length_abstraction.
 
+(* ---- lines=False on a file that holds ONE document (what dump_to_file writes for one object) ----
+   file.read(size=-1) delivers the whole file in one chunk; there is no line.unframe, so the document is parsed
+   from the one non-empty text item that reaches load.  Premises about the libraries (NOT proved for them; tied
+   by the differential test): orjson parses the document followed by the newline dump appended; the text
+   codec and the compression stage, fed the whole file in ONE non-empty item (plus empty items), deliver the
+   whole text / the whole byte string in ONE non-empty item (plus empty flush items). *)
+Theorem C19_load_doc_from_file_dump_one_partial :
+  forall (Obj Ch Byte : Type) (nl : Ch) (dumps : Obj -> list Ch)
+         (loads : list Ch -> option Obj) (is_null : Obj -> bool)
+         (encode : list (list Ch) -> list (list Byte)) (decode : list (list Byte) -> option (list (list Ch)))
+         (compress : list (list Byte) -> list (list Byte))
+         (decompress : list (list Byte) -> option (list (list Byte))),
+  (* H_loads_dumps_nl *) (forall o, loads (dumps o ++ [nl]) = Some o) ->
+  (* H_text_codec_whole *) (forall cs r, drop_empty r = drop_empty [concat (encode cs)] ->
+                            exists cs', decode r = Some cs' /\ drop_empty cs' = drop_empty [concat cs]) ->
+  (* H_compression_whole *) (forall bs r, drop_empty r = drop_empty [concat (compress bs)] ->
+                             exists bs', decompress r = Some bs' /\ drop_empty bs' = drop_empty [concat bs]) ->
+  forall (o : Obj) (ign : bool), is_null o = false ->
+  load_doc_from_file Obj Ch Byte loads is_null decode decompress 0 ign
+    (dump_to_file Obj Ch Byte nl dumps encode compress [o]) = ([o], true).
+Proof. exact load_doc_from_file_dump_one. Qed.
+Print Assumptions C19_load_doc_from_file_dump_one_partial.
+
+(* the same through a raw stream: read(-1) = readall() joins short reads of at least one byte each *)
+Theorem C19_load_doc_raw_stream_dump_one_partial :
+  forall (Obj Ch Byte : Type) (nl : Ch) (dumps : Obj -> list Ch)
+         (loads : list Ch -> option Obj) (is_null : Obj -> bool)
+         (encode : list (list Ch) -> list (list Byte)) (decode : list (list Byte) -> option (list (list Ch)))
+         (compress : list (list Byte) -> list (list Byte))
+         (decompress : list (list Byte) -> option (list (list Byte))),
+  (forall o, loads (dumps o ++ [nl]) = Some o) ->
+  (forall cs r, drop_empty r = drop_empty [concat (encode cs)] ->
+   exists cs', decode r = Some cs' /\ drop_empty cs' = drop_empty [concat cs]) ->
+  (forall bs r, drop_empty r = drop_empty [concat (compress bs)] ->
+   exists bs', decompress r = Some bs' /\ drop_empty bs' = drop_empty [concat bs]) ->
+  forall (o : Obj) (buf : nat) (caps : list nat) (ign : bool), is_null o = false ->
+  0 < buf -> Forall (fun c => 0 < c) caps ->
+  length (dump_to_file Obj Ch Byte nl dumps encode compress [o]) <= length caps ->
+  load_doc_chunks Obj Ch Byte loads is_null decode decompress 0 ign
+    (file_read_all Byte (raw_readall Byte buf caps (dump_to_file Obj Ch Byte nl dumps encode compress [o]))) =
+  ([o], true).
+Proof. exact load_doc_raw_stream_dump_one. Qed.
+Print Assumptions C19_load_doc_raw_stream_dump_one_partial.
+
+(* file.read(size=-1) delivers the file unchanged; the size-level function of the correspondence check
+   (doc_read_sizes) gives the sizes of its chunks *)
+Theorem C19_file_read_all_concat : forall (Byte : Type) (f : list Byte), concat (file_read_all Byte f) = f.
+Proof. exact file_read_all_concat. Qed.
+Print Assumptions C19_file_read_all_concat.
+Theorem C19_file_read_all_sizes : forall (Byte : Type) (f : list Byte),
+  map (fun ch => N.of_nat (length ch)) (file_read_all Byte f) = doc_read_sizes (N.of_nat (length f)).
+Proof. exact file_read_all_sizes. Qed.
+Print Assumptions C19_file_read_all_sizes.
+
+(* compression=None satisfies the whole-item compression premise *)
+Theorem C19_no_compression_whole_ok : forall (Byte : Type) (bs r : list (list Byte)),
+  drop_empty r = drop_empty [concat ((fun x => x) bs)] ->
+  exists bs', (fun x => Some x) r = Some bs' /\ drop_empty bs' = drop_empty [concat bs].
+Proof. exact no_compression_whole_ok. Qed.
+Print Assumptions C19_no_compression_whole_ok.
+
 (* non-vacuity *)
 Example C19_load_example :
   z_json_load [([123; 125]%Z, Some 1%N); ([110; 117; 108; 108]%Z, Some 0%N); ([120]%Z, None)] 1 false
@@ -129,4 +191,13 @@ Proof. vm_compute. reflexivity. Qed.
 Example C19_raw_sizes_example : raw_sizes 4 [3; 9; 1; 2; 5]%N 10 = [3; 4; 1; 2]%N.
 Proof. vm_compute. reflexivity. Qed.
 Example C19_len_example : len_run_timed 0 [[2; 3]; [4]; [0; 0; 1]; [0; 0]]%N = [[2]; []; [7; 0]; [1]; []]%N.
+Proof. vm_compute. reflexivity. Qed.
+(* lines=False: the whole document in one text item (key [1]) followed by the empty flush items; and what
+   happens when the document arrives in two pieces (keys [1], [2], neither parses): nothing is reassembled *)
+Example C19_doc_example : z_json_load [([1]%Z, Some 5%N)] 0 false [[1]; []; []]%Z = ([5]%N, true).
+Proof. vm_compute. reflexivity. Qed.
+Example C19_doc_pieces_example :
+  z_json_load [([1]%Z, None); ([2]%Z, None)] 0 true [[1]; [2]; []]%Z = ([], true).
+Proof. vm_compute. reflexivity. Qed.
+Example C19_doc_read_sizes_example : (doc_read_sizes 0, doc_read_sizes 70000) = ([], [70000]%N).
 Proof. vm_compute. reflexivity. Qed.
